@@ -42,11 +42,12 @@ import (
 
 var watchdog = watchdogFromEnv()
 
-const stallWait = 300 * time.Millisecond
+// how long a send that nobody can take is watched before it is called a stall (VERIF_STALL_MS overrides)
+var stallWait = stallWaitFromEnv()
 
 type config struct {
-	warnCap int // -1: nil channel; >= 1: buffered with that capacity
-	handler bool
+	warnCap int // -1: nil channel; -2: unbuffered channel with a live reader; >= 0: buffered with that capacity
+	handler int // 0: none; 1: one that accepts everything; 2: one that declines; 3: one that declines, then one that accepts
 	fresh   bool
 }
 
@@ -55,7 +56,10 @@ func (c config) String() string {
 	if c.warnCap >= 0 {
 		w = "buf:" + strconv.Itoa(c.warnCap)
 	}
-	return fmt.Sprintf("warn=%s handler=%s fresh=%s", w, b01(c.handler), b01(c.fresh))
+	if c.warnCap == -2 {
+		w = "live"
+	}
+	return fmt.Sprintf("warn=%s handler=%d fresh=%s", w, c.handler, b01(c.fresh))
 }
 
 func b01(b bool) string {
@@ -77,8 +81,11 @@ func parseConfig(tok []string) config {
 			if strings.HasPrefix(kv[1], "buf:") {
 				c.warnCap, _ = strconv.Atoi(kv[1][4:])
 			}
+			if kv[1] == "live" {
+				c.warnCap = -2
+			}
 		case "handler":
-			c.handler = kv[1] == "1"
+			c.handler, _ = strconv.Atoi(kv[1])
 		case "fresh":
 			c.fresh = kv[1] == "1"
 		}
@@ -115,8 +122,8 @@ type sentMsg struct {
 	seq      int32
 	class    string
 	atFrames int  // number of client frames logged when it was sent
-	failing  bool // its processing ends in an error by design (garbage, unknown id, ...): no ack is owed
-	inFailed bool // it sits in a container behind / around a failing item
+	failing  bool // its processing ends in an error by design (garbage, unknown id, ...); it is acknowledged all the same
+	inFailed bool // it sits in a container behind / around a failing item (informational)
 }
 
 type rejection struct {
@@ -154,6 +161,8 @@ type run struct {
 	controlled   int32 // 1 while the scheduler parks goroutines
 	warnings     chan error
 	handled      int64
+	declined     int64
+	liveWarnings int64
 	initSalt     int64 // salt of the session at the start (shown as 0 / as keyexSalt for fresh sessions)
 	conns        int   // connection generations seen
 	closePending bool
@@ -163,6 +172,7 @@ type run struct {
 	lastClass    string
 	msgClass     string // class of the message the receive loop is working on
 	nextCloseSid int64
+	nprobes      int
 	profile      string
 }
 
@@ -286,8 +296,27 @@ func (r *run) connect(idx, attempt int) bool {
 		r.warnings = make(chan error, r.cfg.warnCap)
 		cl.Warnings = r.warnings
 	}
-	if r.cfg.handler {
-		cl.AddCustomServerRequestHandler(func(i interface{}) bool { atomic.AddInt64(&r.handled, 1); return true })
+	if r.cfg.warnCap == -2 {
+		// an unbuffered channel with somebody reading it all the time: whether a warning gets through depends on
+		// the reader being back in its receive; nothing of that is projected (the model sees no channel)
+		live := make(chan error)
+		cl.Warnings = live
+		go func() {
+			for range live {
+				atomic.AddInt64(&r.liveWarnings, 1)
+			}
+		}()
+	}
+	decline := func(i interface{}) bool { atomic.AddInt64(&r.declined, 1); return false }
+	accept := func(i interface{}) bool { atomic.AddInt64(&r.handled, 1); return true }
+	switch r.cfg.handler {
+	case 1:
+		cl.AddCustomServerRequestHandler(accept)
+	case 2:
+		cl.AddCustomServerRequestHandler(decline)
+	case 3:
+		cl.AddCustomServerRequestHandler(decline)
+		cl.AddCustomServerRequestHandler(accept)
 	}
 	connErr := make(chan error, 1)
 	go func() {
@@ -844,8 +873,31 @@ func (r *run) resolve(ref string) (int64, *callState, bool) {
 		}
 		return cs.msgID, cs, true
 	}
+	if strings.HasPrefix(ref, "ack.") {
+		// the msg id of the j-th msgs_ack the client has written (a server rejects acks sent under an old salt too)
+		j, _ := strconv.Atoi(ref[4:])
+		for _, f := range r.srv.Frames() {
+			if refserver.AckedIDs(f) != nil {
+				if j == 0 {
+					return f.MsgID, nil, false
+				}
+				j--
+			}
+		}
+		trouble("reference %s to an acknowledgement that was not written", ref)
+	}
 	id, _ := strconv.ParseInt(ref, 10, 64)
 	return id + r.base, nil, false
+}
+
+func (r *run) acksWritten() int {
+	n := 0
+	for _, f := range r.srv.Frames() {
+		if refserver.AckedIDs(f) != nil {
+			n++
+		}
+	}
+	return n
 }
 
 func (r *run) wasRejected(id int64) bool {
@@ -1321,6 +1373,8 @@ func (r *run) finish() {
 			if !cs.done && cs.answers > 0 && ok {
 				r.viol("C11", "salt-rotation:answered-call-pending",
 					fmt.Sprintf("caller %d call %d was answered by the server under its latest msg id but never returned", t, cs.k))
+				r.viol("C16", "answered-call-never-returned",
+					fmt.Sprintf("caller %d call %d was answered by the server (possibly as a later item of a container) but never returned although the receive loop is idle", t, cs.k))
 			}
 		}
 	}
@@ -1454,7 +1508,9 @@ func (r *run) finish() {
 		}
 		owed := map[int64]int{}
 		for _, m := range r.sent {
-			if m.seq&1 == 1 && !m.failing && !m.inFailed {
+			// every message processResponse is entered for - also one whose body cannot be handled, also the
+			// items after it in a container; not what the transport itself refused (no msg id reached the client)
+			if m.seq&1 == 1 && !strings.HasPrefix(m.class, "transport:") {
 				owed[m.sid]++
 			}
 		}
@@ -1499,6 +1555,13 @@ func (r *run) teardown() {
 			close(c.cmd)
 		}
 	}
+}
+
+func stallWaitFromEnv() time.Duration {
+	if v, err := strconv.Atoi(os.Getenv("VERIF_STALL_MS")); err == nil && v > 0 {
+		return time.Duration(v) * time.Millisecond
+	}
+	return 300 * time.Millisecond
 }
 
 func runtimeStack(buf []byte) int { return runtime.Stack(buf, true) }
